@@ -65,6 +65,29 @@ def run(tier, seed):
             rep.violation("C08/second-run-changes", f"a second run changes {len(changed)} files / rewrites {len(touched)} files (status {rc})",
                           {"changed": changed[:10], "rewritten": touched[:10], "input": "two consecutive runs"})
         gen = generated_files(P)
+        # (2b) start from a tree with EVERY generated file removed: the run must recreate exactly the pristine result.  Committed files in
+        # the generated directories that no definition produces any more (stale doc pages, see C18's known finding) do not come back; they
+        # are not outputs of the generator and are left out of the perturbation plans below
+        g.resync()
+        for f in gen:
+            try:
+                os.remove(os.path.join(SCRATCH, f))
+            except OSError:
+                pass
+        rc, out, _ = g.run(); runs += 1
+        D = tree_digest(SCRATCH)
+        a, b, c = tree_diff(D, P)
+        if rc != 0:
+            rep.violation("C08/generator-abort/all-generated-files-missing", f"the generator exits with status {rc} when every generated file is missing", {"log": out[-800:], "input": "delete every generated file, run the generator"})
+            not_outputs = set()
+        else:
+            not_outputs = {f for f in b if f in set(gen)}
+            rest = [f for f in b if f not in not_outputs]
+            if a or rest or c:
+                rep.violation(f"C08/no-convergence/from-empty/{(a + rest + c)[0]}", f"a run from a tree without generated files does not reproduce the pristine result: {len(a)} extra, {len(rest)} missing, {len(c)} differing",
+                              {"extra": a[:5], "missing": rest[:5], "differing": c[:5], "input": "delete every generated file, run the generator, diff with a pristine run"})
+        samples.append({"run": "all-generated-files-missing", "status": rc, "committed_files_no_definition_produces": sorted(not_outputs)[:40], "count": len(not_outputs)})
+        gen = [f for f in gen if f not in not_outputs]
         # (4) determinism
         reps = 2 if tier == "quick" else 10
         for i in range(reps):
@@ -75,6 +98,49 @@ def run(tier, seed):
             if rc != 0 or a or b or c:
                 rep.violation("C08/nondeterministic", f"run {i} ({'1 core' if i % 2 == 0 else 'all cores'}) differs from the first run in {len(a) + len(b) + len(c)} files",
                               {"only_now": a[:5], "missing": b[:5], "differing": c[:10], "input": f"repeat the run ({'taskset -c 0' if i % 2 == 0 else 'all cores'})"})
+        # (3a) EVERY generated file minimally stale at once (one run covers every write path): last byte cut off / LF -> CRLF on the first
+        # line / one byte changed in the middle / a trailing space added -- the kind rotates with the file index and the pass number
+        MINI = ["cut-last-byte", "crlf-first-line", "one-byte", "trailing-space", "crlf-all", "cut-2"]
+        for pass_ in range(2 if tier == "quick" else 6):
+            g.resync()
+            touched = {}
+            for fi, f in enumerate(gen):
+                path = os.path.join(SCRATCH, f)
+                if not os.path.isfile(path):
+                    continue
+                data = open(path, "rb").read()
+                if len(data) < 4:
+                    continue
+                kind = MINI[(fi + pass_) % (4 if tier == "quick" else len(MINI))]
+                if kind == "cut-last-byte":
+                    new = data[:-1]
+                elif kind == "cut-2":
+                    new = data[:-2]
+                elif kind == "crlf-first-line":
+                    new = data.replace(b"\n", b"\r\n", 1)
+                elif kind == "crlf-all":
+                    new = data.replace(b"\n", b"\r\n")
+                elif kind == "one-byte":
+                    k = len(data) // 2
+                    new = data[:k] + bytes([data[k] ^ 1]) + data[k + 1:]
+                else:
+                    k = data.find(b"\n")
+                    new = data[:k] + b" " + data[k:] if k >= 0 else data + b" "
+                if new != data:
+                    open(path, "wb").write(new)
+                    touched[f] = kind
+            rc, out, _ = g.run(); runs += 1
+            D = tree_digest(SCRATCH)
+            a, b, c = tree_diff(D, P)
+            if rc != 0:
+                rep.violation("C08/generator-abort/minimal-staleness", f"the generator exits with status {rc} when every generated file is minimally stale", {"log": out[-600:], "input": "pass %d of the minimal-staleness plan" % pass_})
+            still = [f for f in c if f in touched]
+            by_kind = collections.Counter(touched[f] for f in still)
+            for kind in sorted(by_kind):
+                ex = next(f for f in still if touched[f] == kind)
+                rep.violation(f"C08/no-convergence/minimal/{kind}", f"{by_kind[kind]} generated files that were stale only by '{kind}' are not restored by a run (e.g. {ex})",
+                              {"kind": kind, "files": [f for f in still if touched[f] == kind][:10], "count": by_kind[kind], "input": f"apply '{kind}' to {ex}, run the generator, compare with a pristine run"})
+            samples.append({"run": f"minimal-staleness-{pass_}", "files_made_stale": len(touched), "not_restored": len(still), "kinds": dict(collections.Counter(touched.values()))})
         # (3) perturbed starts
         n_pert = 6 if tier == "quick" else 60
         kinds = collections.Counter()
